@@ -11,8 +11,8 @@
     [xxx_ok v].  [xxx_ok] collects the facts about the parsed values which the sample lookups
     of track.rs rely on (Proofs/SafeValues.v); it is [True] for the metadata boxes.
 
-    Nothing is claimed about the final position: a meta box does not seek to [start + size],
-    and the parent's loop does not need it (SafeLoop.v). *)
+    Nothing is claimed about the final position: the parent's loop does not need it
+    (SafeLoop.v). *)
 From MP4 Require Import Hoare SafeLoop SafeLeaf1 SafeLeaf2 SafeLeaf3 SafeLeaf4 SafeValues.
 From MP4 Require Import BoxStsd BoxStbl BoxMinf BoxMdia BoxEdts BoxTrak BoxMvex BoxMoov BoxTraf BoxMoof
      BoxIlst BoxMeta BoxUdta.
